@@ -85,7 +85,7 @@ def gen(ctx):
                 for co in ([cs[-1], cs[len(cs) // 2]] + [rnd.choice(cs) for _ in range(2)]):
                     cases.append(("convpos", lay, list(sz), list(co)))
     # 32-bit coordinate scalars (unsigned, int) through the probe backend: high coordinate bits must survive the interleave
-    for ct, cw in (("u32", 32), ("i32", 31)):
+    for ct, cw in (("u32", 32), ("i32", 31), ("u16", 16)):
         for N in (1, 2, 3, 4):
             w = min(cw, 64 // N)
             top = (1 << w) - 1
@@ -100,7 +100,7 @@ def gen(ctx):
                     co = [0] * N; co[j] = min(ext[0] - 1, 1 << b)
                     for lay in ("mortonT", "mortonF"):
                         cases.append(("idx", lay, ext, co, ct))
-        for _ in range(40 if ctx.quick else 800):
+        for _ in range(0 if ct == "u16" else 40 if ctx.quick else 800):      # (the extents below do not fit 16 bits)
             sx, sy = rnd.choice([3, 5, 9, 17, 100, 65537, 2 ** 20 + 1]), rnd.choice([2, 7, 33, 65536, 2 ** 20])
             cases.append(("idx", "hilbert", [sx, sy], [rnd.choice([0, sx - 1, rnd.randrange(sx)]), rnd.choice([0, sy - 1, rnd.randrange(sy)])], ct))
     return cases
